@@ -12,9 +12,9 @@ Failing(e) ==
      (IF e.res # expect THEN {"decoration_outcome"} ELSE {})
   \cup (IF \E j \in 1..Len(e.phases) : e.phases[j].replaced # <<>> THEN {"user_code_replaced"} ELSE {})
   \cup (IF e.res = "ok" /\ expect = "ok" THEN
-          \* (lazily built methods of a parent install themselves on the accessing subclass on first use: tolerated, not demanded)
+          \* (a lazily built method of a parent replaces its placeholder in the parent, never in the subclass it was reached through)
           LET fin == e.phases[Len(e.phases)] added == ToSet(fin.names) \ (body \cup Infra) want == Generated(Dd) \ body
-              inherited == ToSet(Dd.inh_helpers) \cup {"__init__", "__repr__", "__eq__", "__getattr__", "__setattr__", "__delattr__", "__deepcopy__"} IN
+              inherited == {"__init__", "__repr__", "__eq__", "__getattr__", "__setattr__", "__delattr__", "__deepcopy__"} IN
              (IF want \ added # {} THEN {"documented_helper_missing"} ELSE {})
           \cup (IF added \ (want \cup inherited) # {} THEN {"undocumented_name_added"} ELSE {})
           \cup (IF ~(Backups \subseteq ToSet(fin.names)) THEN {"spec_class_backups_missing"} ELSE {})
